@@ -100,7 +100,7 @@ CLAIMED = {
     "C05": {
         "engine": "borrow",
         "technique": "Coq proof (soundness of the borrow discipline the public signatures impose, over a client language with a run-time misuse semantics) + signature facts regenerated from /repo/src + compile-probe correspondence against rustc",
-        "text": "C05_accepted_programs_never_misuse / C05_misuse_is_rejected (every program of the client language, any length), the misuse families in every context (C05_use_after_reset, C05_iterator_survives_reset, C05_outlives_or_moved_arena, C05_iterator_outlives_arena, C05_alloc_during_iteration, C05_no_sharing_between_threads, C05_collections_not_sent, C05_thread_bounds), the ordinary patterns for every n (C05_many_allocations_alive, C05_idle_arena_moves_to_thread) and C05_each_fact_needed. actual_facts is re-read from the source text on every run (tools/sigfacts.py -> SigFactsActual.v, obligation facts_ok actual_facts in SigFactsOk.v). The tie between `accepts actual_facts` and the compiler is the probe: every well-scoped program up to 3 (quick) / 4-5 (thorough) statements over 59 ways of obtaining an arena-backed value (every allocation helper, constructor, conversion and view of Bump/Vec/String/Box, with and without destructors; programs longer than 3 statements for the 10 basic kinds only) is rendered to Rust and type/borrow-checked by rustc against the crate built from /repo; rustc's verdict is compared with the extracted `accepts`, and any compiled program whose `drun` is false is a failing input. Partial: the language has one arena and no functions/structs; richer shapes (returning from functions, into_bump_slice, leak, drain, Box<Bump>) are fixed negative/ordinary probes, not theorems.",
+        "text": "C05_accepted_programs_never_misuse / C05_misuse_is_rejected (every program of the client language, any length), the misuse families in every context (C05_use_after_reset, C05_iterator_survives_reset, C05_outlives_or_moved_arena, C05_iterator_outlives_arena, C05_alloc_during_iteration, C05_no_sharing_between_threads, C05_collections_not_sent, C05_thread_bounds), the ordinary patterns for every n (C05_many_allocations_alive, C05_idle_arena_moves_to_thread) and C05_each_fact_needed. actual_facts is re-read from the source text on every run (tools/sigfacts.py -> SigFactsActual.v, obligation facts_ok actual_facts in SigFactsOk.v). The tie between `accepts actual_facts` and the compiler is the probe: every well-scoped program up to 3 (quick) / 4-5 (thorough) statements over 59 ways of obtaining an arena-backed value (every allocation helper, constructor, conversion and view of Bump/Vec/String/Box, with and without destructors; programs longer than 3 statements for the 10 basic kinds only) is rendered to Rust and type/borrow-checked by rustc against the crate built from /repo; rustc's verdict is compared with the extracted `accepts`, and any compiled program whose `drun` is false is a failing input. Partial: the language has one arena and no functions/structs; richer shapes (returning from functions, into_bump_slice, leak, drain, Box<Bump>) are fixed negative/ordinary probes, not theorems. C05_source_auto_trait_impls (the crate's eight unsafe impl Send/Sync lines, with their bounds, and the absence of any other, pinned as text and re-read from /repo on every run).",
         "design_ref": "DESIGN.md §6 C05",
     },
     "C18": {
